@@ -14,6 +14,7 @@ pub mod unit;
 pub mod wide;
 pub mod fam_fut;
 pub mod fam_stream;
+pub mod nest;
 #[cfg(feature = "alloc")]
 pub mod fam_costream;
 #[cfg(feature = "alloc")]
